@@ -338,6 +338,29 @@ impl Context {
         task.set_data(&self.vars());
         self.emit_task(task)?;
 
+        // abort the open tasks in the other branches as well
+        let mut ancestors = Vec::new();
+        let mut p = task.parent();
+        while let Some(t) = p {
+            ancestors.push(t.id.clone());
+            p = t.parent();
+        }
+        for t in self.proc.tasks() {
+            if t.id == task.id || ancestors.contains(&t.id) || t.state().is_completed() {
+                continue;
+            }
+            if t.state().is_pending() || t.state().is_none() {
+                if t.state().is_none() {
+                    // the task was never started, there is nothing to tell the client
+                    t.set_emit_disabled(true);
+                }
+                t.set_state(TaskState::Skipped);
+            } else {
+                t.set_state(TaskState::Aborted);
+            }
+            self.emit_task(&t)?;
+        }
+
         // abort all running task
         let ctx = self;
         let mut parent = task.parent();
